@@ -6,7 +6,7 @@ from .. import AnalysisError, AnchorMissing
 from ..cfg import cfg_of
 from ..model import own_nodes, enclosing_stmt
 from ..values import (expander_of, pattern, match, find, find_all, contains, show, subterms,
-                      to_term, Scope)
+                      to_term, Scope, alias)
 
 MUTATING_METHODS = {'append', 'extend', 'update', 'pop', 'popitem', 'clear', 'add', 'remove',
                     'insert', 'setdefault', '__setitem__', '__delitem__', 'discard', 'sort',
@@ -148,7 +148,7 @@ class Ctx:
                 f = n.func
                 nm = f.attr if isinstance(f, ast.Attribute) else (
                     f.id if isinstance(f, ast.Name) else None)
-                if nm != name:
+                if nm != alias(name):
                     continue
             if p is not None:
                 t = ex.term(n)
